@@ -1,22 +1,20 @@
 ---------------------------- MODULE HGMTraceData ----------------------------
 (* Example / placeholder.  checks/c15.py generates this module per batch of  *)
-(* recorded traces (it is overwritten in TLC's scratch directory only).      *)
-(* Ranks: -1 = NaN, 0 = -infinity, >= 1 finite values in increasing order.   *)
+(* real fits (it is overwritten in TLC's scratch directory only).            *)
+(* orc = the observed oracle as a function of the cluster; ranks: -1 = NaN,  *)
+(* 0 = -infinity, >= 1 finite values in increasing order.                    *)
 EXTENDS Integers
 
 Traces == <<
-  [n |-> 4, minPts |-> 2, maxIter |-> 3, ev |-> <<
-     [ev |-> "E", size |-> 4, imp |-> 3, thr |-> 2, asked |-> TRUE,  lab |-> <<0, 1, 1, 0>>, K |-> 0, labels |-> <<>>, label |-> 0],
-     [ev |-> "E", size |-> 2, imp |-> 1, thr |-> 2, asked |-> FALSE, lab |-> <<>>, K |-> 0, labels |-> <<>>, label |-> 0],
-     [ev |-> "E", size |-> 2, imp |-> -1, thr |-> 2, asked |-> FALSE, lab |-> <<>>, K |-> 0, labels |-> <<>>, label |-> 0],
-     [ev |-> "K", size |-> 0, imp |-> 0, thr |-> 0, asked |-> FALSE, lab |-> <<>>, K |-> 2, labels |-> <<>>, label |-> 0],
-     [ev |-> "L", size |-> 0, imp |-> 0, thr |-> 0, asked |-> FALSE, lab |-> <<>>, K |-> 0, labels |-> <<0, 1, 1, 0>>, label |-> 0],
-     [ev |-> "P", size |-> 0, imp |-> 0, thr |-> 0, asked |-> FALSE, lab |-> <<>>, K |-> 0, labels |-> <<>>, label |-> 1]
-  >>],
-  [n |-> 3, minPts |-> 4, maxIter |-> 1000, ev |-> <<
-     [ev |-> "K", size |-> 0, imp |-> 0, thr |-> 0, asked |-> FALSE, lab |-> <<>>, K |-> 1, labels |-> <<>>, label |-> 0],
-     [ev |-> "L", size |-> 0, imp |-> 0, thr |-> 0, asked |-> FALSE, lab |-> <<>>, K |-> 0, labels |-> <<0, 0, 0>>, label |-> 0],
-     [ev |-> "P", size |-> 0, imp |-> 0, thr |-> 0, asked |-> FALSE, lab |-> <<>>, K |-> 0, labels |-> <<>>, label |-> 0]
-  >>]
+  [n |-> 4, minPts |-> 2, maxIter |-> 3,
+   orc |-> <<
+     [ids |-> {1, 2, 3, 4}, imp |-> 3, thr |-> 2, known |-> TRUE,  c1 |-> {1, 4}],
+     [ids |-> {1, 4},       imp |-> 1, thr |-> 2, known |-> FALSE, c1 |-> {}],
+     [ids |-> {2, 3},       imp |-> -1, thr |-> 2, known |-> FALSE, c1 |-> {}]
+   >>,
+   K |-> 2, labels |-> <<0, 1, 1, 0>>, preds |-> {1}, hasSplits |-> TRUE, splits |-> << <<1, 1>> >>],
+  [n |-> 3, minPts |-> 4, maxIter |-> 1000,
+   orc |-> <<>>,
+   K |-> 1, labels |-> <<0, 0, 0>>, preds |-> {0}, hasSplits |-> FALSE, splits |-> <<>>]
 >>
 =============================================================================
